@@ -5,7 +5,8 @@ phrases, `+ - * / ^`, parentheses, casts and builtin calls, nested and mixed.
 An expression is a list of (gap, token) pairs. A gap says what may stand BEFORE the token:
   "G"  glued (nothing may stand there),
   "B"  a blank is required (any kind, any number),
-  "O"  a blank is optional (none, or any kind and number).
+  "O"  a blank is optional (none, or any kind and number),
+  "T"  like "O", around `*` and `/` when the operand before the operator does not end in a unit word.
 Only positions where the presence of a blank provably does not matter are "O" (after `(`, before
 `)`, around `,`, at both ends of the query); between an operand and an operator the blank that is
 written stays (its presence decides e.g. whether `m*3` is one unit expression), only its kind and
@@ -71,20 +72,33 @@ def operand(rng, depth, fam=None):
     return [("X", number(rng))]
 
 
+def ends_in_unit(op):
+    """Does this operand (as returned by `operand`) end in a unit word? (`<number> <unit>`)"""
+    return len(op) == 2 and op[0][1][0].isdigit() and op[1][1] != "%"
+
+
 def expr(rng, depth, fam=None):
     if fam is None or rng.chance(1, 6):
         fam = rng.choice(list(FAMILIES))
     out = operand(rng, depth, fam)
+    last_is_unit = ends_in_unit(out)
     for _ in range(rng.choice([0, 1, 1, 2, 3])):
         op = rng.choice(["+", "-", "*", "/", "*", "/", "^", "to"])
         if op == "^":
             out += [("B", "^"), ("B", str(rng.range(0, 3)))]
+            last_is_unit = False
         elif op == "to":
             pool = FAMILIES[fam][0] if FAMILIES[fam][0] and rng.chance(4, 5) else UNITS + TEMPS
             out += [("B", "to"), ("B", rng.choice(pool))]
+            last_is_unit = True
         else:
             nxt = operand(rng, depth, fam if op in "+-" or rng.chance(1, 2) else None)
-            out += [("B", op), ("B", nxt[0][1])] + nxt[1:]
+            # `*` and `/` may be written without blanks when the operand before them does not end in
+            # a unit word (`pi*2`, `speed of light/7`, `(1)*2`, `50%*3`, `2*3`): gap "T"; after a
+            # unit word the blank decides whether the operator belongs to the unit (`m*2`), so it stays
+            g = "T" if op in "*/" and not last_is_unit else "B"
+            out += [(g, op), (g, nxt[0][1])] + nxt[1:]
+            last_is_unit = ends_in_unit(nxt)
     return out
 
 
@@ -95,6 +109,8 @@ def render(toks, rng):
             s += rng.choice(BLANKS) if rng.chance(1, 2) else ""
         elif g == "B":
             s += rng.choice(BLANKS)
+        elif g == "T":
+            s += rng.choice(BLANKS) if rng.chance(1, 2) else ""
         s += t
     return s + (rng.choice(BLANKS) if rng.chance(1, 2) else "")
 
@@ -102,7 +118,7 @@ def render(toks, rng):
 def canonical(toks):
     s = ""
     for i, (g, t) in enumerate(toks):
-        if i and g == "B":
+        if i and g in ("B", "T"):
             s += " "
         s += t
     return s
